@@ -293,12 +293,45 @@ def run_case(mod, fi, plan, ch, check_refs):
     return res
 
 
+_f35_cache = {}
+F35_HITS = [0]
+
+
+def f35_shape(ms, fi):
+    """Known finding F35: does function f<fi> do 'NAME += ...' on a local that an inner generator expression or lambda of the
+    same function captures (a closure variable)?"""
+    key = (ms["name"], fi)
+    if key not in _f35_cache:
+        import re
+        m = re.search(r"^def f%d\(.*?(?=^def f\d+\(|\Z)" % fi, ms["src"], re.S | re.M)
+        body = m.group(0) if m else ""
+        names = set(re.findall(r"^\s*(x\d+) \+= ", body, re.M))
+        captured = set(re.findall(r"\(q \+ (x\d+) for q in", body)) | set(re.findall(r"lambda q: q \+ (x\d+)\)", body)) | \
+            set(re.findall(r"for q in (x\d+)\)", body))
+        _f35_cache[key] = bool(names & captured)
+    return _f35_cache[key]
+
+
+def is_known_f35(ms, fi, problems):
+    """refnanny bookkeeping artefact, no real imbalance: the in-place str concatenation helper hands the left operand's
+    reference over to refnanny although a closure variable's reference is owned by the closure scope.  Matched narrowly:
+    the only problem is a refnanny report of the form 'Too many decrefs ... acquired on lines []' (+ the mirrored 'leaked'
+    lines), live-object conservation and argument refcounts hold, and the function has the shape above."""
+    if os.environ.get("SIMKIT_RAW_REPLAY"):
+        return False
+    return (len(problems) == 1 and problems[0]["what"] == "refnanny-report" and "Too many decrefs" in problems[0]["text"]
+            and "acquired on lines []" in problems[0]["text"] and f35_shape(ms, fi))
+
+
 def check_case(ms, fi, plan, pair):
     """Returns (nfallible_calls, violation or None, order_divergence flag)."""
     sut, model, ch = pair
     rs = run_case(sut, fi, plan, ch, True)
     v = None
     od = False
+    if rs["problems"] and is_known_f35(ms, fi, rs["problems"]):
+        rs["problems"] = []
+        F35_HITS[0] += 1
     if rs["problems"]:
         v = {"klass": rs["problems"][0]["what"], "detail": rs["problems"]}
     elif plan:
@@ -353,6 +386,9 @@ def one_run(check, seed, i, cfg):
         res["nontrivial_digests"].append(core.digest([ms["name"], fi, plan]))
         if v2 is not None and "violation" not in res:
             res["violation"] = dict(v2, func=fi, plan=plan, module=ms["name"], src=ms["src"])
+    if F35_HITS[0]:
+        res["probes"]["known_F35_refnanny_artefact_inplace_concat_on_closure_variable"] = F35_HITS[0]
+        F35_HITS[0] = 0
     res["probes"]["functions_swept"] = 1
     if ms["handlers"][fi]:
         res["probes"]["functions_with_handler"] = 1
@@ -418,7 +454,12 @@ def replay(payload):
     nf = payload["func"] + 1
     ms = {"name": name, "src": payload["src"], "so": so, "nfuncs": nf, "refnanny": rn,
           "handlers": [payload.get("has_handler", "except Inj" in payload["src"])] * nf}
-    st, r = core.run_one_forked(run_single, ms, payload["func"], payload["plan"], timeout=60)
+    if payload.get("raw"):
+        os.environ["SIMKIT_RAW_REPLAY"] = "1"
+    try:
+        st, r = core.run_one_forked(run_single, ms, payload["func"], payload["plan"], timeout=60)
+    finally:
+        os.environ.pop("SIMKIT_RAW_REPLAY", None)
     print("replayed: %s %s" % (st, json.dumps(r)[:600] if r is not None else None))
     if payload.get("klass") == "crash":
         return st == "crash"
